@@ -16,11 +16,11 @@ import (
 )
 
 var readOnly = map[string]string{
-	"RequestContext": "ClientIP ContentType Cookie Copy DefaultPostForm DefaultQuery ForEachKey FullPath Get GetBool GetConn GetDuration " +
+	"RequestContext": "ClientIP ContentType Cookie DefaultPostForm DefaultQuery FullPath GetBool GetConn GetDuration " +
 		"GetFloat32 GetFloat64 GetHeader GetHijackHandler GetIndex GetInt GetInt32 GetInt64 GetPostForm GetQuery GetRawData GetReader " +
-		"GetRequest GetResponse GetString GetStringMap GetStringMapString GetStringMapStringSlice GetStringSlice GetTime " +
+		"GetRequest GetResponse GetStringMap GetStringMapString GetStringMapStringSlice GetStringSlice GetTime " +
 		"GetUint GetUint32 GetUint64 GetWriter Handler HandlerName Handlers Hijacked Host IfModifiedSince IsAborted IsEnableTrace IsExiled " +
-		"IsGet IsHead IsPost Method MustGet Param Path PostFormArray Query RemoteAddr UserAgent Value VisitAllCookie " +
+		"IsGet IsHead IsPost Method MustGet Param Path PostFormArray Query RemoteAddr UserAgent VisitAllCookie " +
 		"VisitAllHeaders VisitAllPostArgs VisitAllQueryArgs",
 	"Request": "BasicAuth BodyBytes BodyStream ConnectionClose HasMultipartForm Host IsBodyStream IsURIParsed MayContinue Method " +
 		"MultipartFields MultipartFiles MultipartFormBoundary OnlyMultipartForm Path PostArgString QueryString RequestURI Scheme",
